@@ -159,6 +159,7 @@ type harness struct {
 	skipped  int64
 	cut      int64
 	ex       *executor
+	sampled  map[string]int // mutation class -> evidence samples taken in this process
 }
 
 const nStats = 8
@@ -310,6 +311,27 @@ func (h *harness) runCase(e *entry, key string, in []byte) (event bool) {
 	default:
 		st[2]++
 	}
+	// a few observed cases per mutation class for the evidence
+	if parts := strings.Split(key, "|"); len(parts) >= 3 && !o.Panicked && o.Fatal == "" && !o.Hang {
+		cls := strings.TrimRight(parts[2], ";0123456789")
+		if cls == "" {
+			cls = "unmodified"
+		}
+		if h.sampled == nil {
+			h.sampled = map[string]int{}
+		}
+		if h.sampled[cls] >= 2 {
+			goto sampled
+		}
+		h.sampled[cls]++
+		hx, _ := hexCap(in)
+		if len(hx) > 160 {
+			hx = hx[:160] + "..."
+		}
+		h.r.SampleKind("class-"+cls, 2, map[string]any{"entry": e.name, "case": key, "input_len": len(in), "input_hex": hx,
+			"returned": map[result]string{rOK: "value", rErr: "error", rExempt: "exempt"}[o.Res], "allocated_bytes": o.Alloc, "bound": hostile.Bound(len(in))})
+	}
+sampled:
 	if bound := hostile.Bound(len(in)); o.Alloc > bound {
 		switch {
 		case e.live:
